@@ -153,7 +153,7 @@ func (nr *nativeRunner) build() {
 	nr.built = true
 	t0 := time.Now()
 	defer func() { nr.buildDur = time.Since(t0) }()
-	cache := filepath.Join(verifDir, ".cache", "replay", nr.spec.Property+"_"+strings.ReplaceAll(strings.TrimPrefix(nr.unit.Package, modulePath), "/", "_"))
+	cache := filepath.Join(verifDir, ".cache", "replay"+cacheTag, nr.spec.Property+"_"+strings.ReplaceAll(strings.TrimPrefix(nr.unit.Package, modulePath), "/", "_"))
 	os.MkdirAll(cache, 0o755)
 	pd := pkgDir(nr.unit.Package)
 	repl := map[string]string{filepath.Join(repoDir, "internal/zzverifrt/rt.go"): filepath.Join(verifDir, "support/zzverifrt/rt.go")}
@@ -402,7 +402,7 @@ func cmdCheck(args []string) int {
 		return 2
 	}
 	spec.Property = prop
-	evPath := filepath.Join(verifDir, "evidence", prop+".json")
+	evPath := filepath.Join(outDir(), "evidence", prop+".json")
 	os.MkdirAll(filepath.Dir(evPath), 0o755)
 
 	// overlay with every unit's harness files
@@ -603,7 +603,7 @@ func cmdCheck(args []string) int {
 					confirmedNew++
 					rb, _ := json.MarshalIndent(rf, "", " ")
 					h := sha256.Sum256(rb)
-					rdir := filepath.Join(verifDir, "replays", prop)
+					rdir := filepath.Join(outDir(), "replays", prop)
 					os.MkdirAll(rdir, 0o755)
 					rpath := filepath.Join(rdir, fmt.Sprintf("%s-%x.json", es.Name, h[:6]))
 					os.WriteFile(rpath, rb, 0o644)
